@@ -251,12 +251,31 @@ Definition add_table (m : builder) (tag : Z) (dumped : option (list Z)) : builde
   | None => m
   end.
 
+(* build(&mut self) drains the builder: its second loop does `self.tables.remove(&tag).unwrap()` for every
+   tag of table_order (BTreeMap::remove = delete the binding).  [after_build m] is the state left behind. *)
+Fixpoint remove_key (t : Z) (m : builder) : builder :=
+  match m with
+  | [] => []
+  | (k, v) :: r => if t =? k then r else (k, v) :: remove_key t r
+  end.
+Definition after_build (m : builder) : builder :=
+  fold_left (fun m t => remove_key t m) (ordered_tags m) m.
+
+(* every tag literal that font_builder.rs treats specially (head, 'CFF ', DSIG, the two recommended orders);
+   the harness extracts the tag literals of the non-test source at run time and the [(5, _, tags)] case
+   demands the two sets be equal, so a new special-cased tag in the code breaks the tie *)
+Definition special_tags : list Z := TAG_head :: TAG_CFF :: TAG_DSIG :: ORDER_TTF ++ ORDER_CFF.
+
 (* ---- correspondence case format (written by harness/src/bin/c06.rs) ----
    case = (ops, probes, built, (opens, header, tags, queries))
    ops   : (0, tag, bytes) = add_raw; (1, _, font bytes) = copy_missing_tables(FontRef::new(bytes));
            (3, T::TAG, bytes) = add_table(&t) where dump_table(&t) = Ok(bytes) and add_table returned Ok;
            (4, T::TAG, _) = add_table(&t) where dump_table(&t) = Err(_) and add_table returned Err;
-           a single (2, _, bytes) = no build, the reader is run on [bytes] as given (malformed stream)
+           (6, _, file) = an intermediate build() on the same builder value which returned [file]; the builder
+           is left drained and the following ops act on it (builder reuse);
+           a single (2, _, bytes) = no build, the reader is run on [bytes] as given (malformed stream);
+           a single (5, _, tags) = no build: [tags] are the 4-byte tag literals found in the non-test part of
+           font_builder.rs — they must be exactly the model's [special_tags]
    probes: (tag, FontBuilder::contains(tag)) asked after the last op, before build()
    built : Some file = what FontBuilder::build returned; None = it panicked
    opens : FontRef::new(file).is_ok(); header = [sfnt; num; search_range; entry_selector; range_shift];
@@ -264,16 +283,6 @@ Definition add_table (m : builder) (tag : Z) (dumped : option (list Z)) : builde
 Definition op := (Z * Z * list Z)%type.
 Definition obs := (bool * list Z * list Z * list (Z * option (list Z)))%type.
 Definition case := (list op * list (Z * bool) * option (list Z) * obs)%type.
-
-Definition apply_op (m : option builder) (o : op) : option builder :=
-  do m <- m;;
-  let '(k, t, d) := o in
-  if k =? 0 then Some (add_raw t d m)
-  else if k =? 1 then (do f <- font_ref_new d;; Some (copy_missing_tables m f))
-  else if k =? 3 then Some (add_table m t (Some d))
-  else if k =? 4 then Some (add_table m t None)
-  else None.
-Definition apply_ops (ops : list op) : option builder := fold_left apply_op ops (Some []).
 
 Definition zlist_eqb (a b : list Z) : bool :=
   (Nat.eqb (List.length a) (List.length b)) && forallb (fun p => Z.eqb (fst p) (snd p)) (combine a b).
@@ -284,9 +293,24 @@ Definition ozlist_eqb (a b : option (list Z)) : bool :=
   | _, _ => false
   end.
 
+Definition apply_op (m : option builder) (o : op) : option builder :=
+  do m <- m;;
+  let '(k, t, d) := o in
+  if k =? 0 then Some (add_raw t d m)
+  else if k =? 1 then (do f <- font_ref_new d;; Some (copy_missing_tables m f))
+  else if k =? 3 then Some (add_table m t (Some d))
+  else if k =? 4 then Some (add_table m t None)
+  else if k =? 6 then (do file <- build m;; if zlist_eqb file d then Some (after_build m) else None)
+  else None.
+Definition apply_ops (ops : list op) : option builder := fold_left apply_op ops (Some []).
+
 Definition model_file (ops : list op) : option (option (list Z)) :=   (* outer None = bad case *)
   match ops with
   | [(2, _, bytes)] => Some (Some bytes)
+  | [(5, _, tags)] =>
+      if forallb (fun t => existsb (Z.eqb t) special_tags) tags
+         && forallb (fun t => existsb (Z.eqb t) tags) special_tags
+      then Some None else None
   | _ => do m <- apply_ops ops;; Some (build m)
   end.
 
@@ -304,6 +328,7 @@ Definition check_reader (file : list Z) (o : obs) : bool :=
 Definition check_probes (ops : list op) (probes : list (Z * bool)) : bool :=
   match ops with
   | [(2, _, _)] => true
+  | [(5, _, _)] => true
   | _ => match apply_ops ops with
          | Some m => forallb (fun p => Bool.eqb (contains m (fst p)) (snd p)) probes
          | None => false
